@@ -124,7 +124,7 @@ impl<'a> HavokBinaryTagFileReader<'a> {
 
         // fill object references
         for object in &self.objects {
-            self.fill_object_reference(&mut object.borrow_mut());
+            self.fill_object_reference(&mut object.borrow_mut())?;
         }
 
         // (the root is the first object of the file: entry 0 is the placeholder of the FileInfo tag)
@@ -133,14 +133,17 @@ impl<'a> HavokBinaryTagFileReader<'a> {
 
     fn read_object(&mut self) -> Option<HavokObject> {
         let object_type_index = self.read_packed_int()?;
-        let object_type = self.remembered_types[object_type_index as usize].clone();
+        let object_type = self
+            .remembered_types
+            .get(object_type_index as usize)?
+            .clone();
 
         let members = object_type.members();
         let data_existence = self.read_bit_field(members.len())?;
 
         let mut data = HashMap::new();
         for (index, member) in members.into_iter().enumerate() {
-            let value = if data_existence[index] {
+            let value = if *data_existence.get(index)? {
                 self.read_object_member_value(member)?
             } else {
                 Self::default_value(member.type_)
@@ -272,14 +275,15 @@ impl<'a> HavokBinaryTagFileReader<'a> {
         let parent = self.read_packed_int()?;
         let member_count = self.read_packed_int()?;
         if member_count as i64 > self.reader.raw().len() as i64 {
-            panic!("invalid member count")
+            // invalid member count
+            return None;
         }
 
-        let parent = self.remembered_types[parent as usize].clone();
+        let parent = self.remembered_types.get(parent as usize)?.clone();
         let members = (0..member_count)
             .map(|_| {
                 let member_name = self.read_string()?;
-                let type_ = HavokValueType::from_bits(self.read_packed_int()? as u32).unwrap();
+                let type_ = HavokValueType::from_bits(self.read_packed_int()? as u32)?;
 
                 let tuple_size = if type_.is_tuple() {
                     self.read_packed_int()?
@@ -309,12 +313,14 @@ impl<'a> HavokBinaryTagFileReader<'a> {
     fn read_string(&mut self) -> Option<Arc<str>> {
         let length = self.read_packed_int()?;
         if length < 0 {
-            return Some(self.remembered_strings[-length as usize].clone());
+            // (i32::MIN, which five bytes without the sign bit can encode, has no negation)
+            let index = length.checked_neg()? as usize;
+            return Some(self.remembered_strings.get(index)?.clone());
         }
 
         let result = Arc::from(
             std::str::from_utf8(self.reader.try_read_bytes(length as usize)?)
-                .unwrap()
+                .ok()?
                 .to_owned(),
         );
         self.remembered_strings.push(Arc::clone(&result));
@@ -372,22 +378,22 @@ impl<'a> HavokBinaryTagFileReader<'a> {
             .clone()
     }
 
-    fn fill_object_reference(&self, object: &mut HavokObject) {
+    fn fill_object_reference(&self, object: &mut HavokObject) -> Option<()> {
         let mut values_to_update = Vec::new();
         for (index, mut value) in object.members_mut() {
             match &mut value {
                 HavokValue::ObjectReference(x) => {
-                    let object_ref = &self.remembered_objects[*x];
+                    let object_ref = self.remembered_objects.get(*x)?;
                     values_to_update.push((*index, HavokValue::Object(object_ref.clone())));
                 }
                 HavokValue::Array(x) => {
-                    x.iter_mut().for_each(|item| {
+                    for item in x.iter_mut() {
                         if let HavokValue::ObjectReference(x) = item {
-                            let object_ref = &self.remembered_objects[*x];
+                            let object_ref = self.remembered_objects.get(*x)?;
 
                             *item = HavokValue::Object(object_ref.clone())
                         }
-                    });
+                    }
                 }
                 _ => {}
             }
@@ -396,6 +402,8 @@ impl<'a> HavokBinaryTagFileReader<'a> {
         for (index, value) in values_to_update {
             object.set(index, value);
         }
+
+        Some(())
     }
 
     fn default_value(type_: HavokValueType) -> HavokValue {
